@@ -33,7 +33,7 @@ def run_parse_property(pid, tier, seed, sel, asserts, rule, outside, assumptions
     if finish: return R.finish(rule)
     return R
 
-STD_OUTSIDE = ['grammars outside the generated families', 'inputs longer than the stated LEN', 'token level: custom one-byte lexer (the generated lexer is covered by C03/C04)']
+STD_OUTSIDE = ['grammars outside the generated families', 'unit nrun4 in the thorough all-family selections of C01/C02/C09: the recorded stack-capacity defect D5 manifests there and is owned by C06/C12 (known_findings.json)', 'inputs longer than the stated LEN', 'token level: custom one-byte lexer (the generated lexer is covered by C03/C04)']
 STD_ASSUME = ['token-level custom lexer maps byte a+k to term k', 'program dimension is a generated finite family']
 
 def run_deferred(R, tier, cases, rule, timeout=None, mem_gb=None):
